@@ -21,6 +21,9 @@ pub use websocket::{
 use crate::{BatchRequest, ParseRequestError, Request};
 
 /// Parse a GraphQL request from a query string.
+///
+/// A query string is how a request arrives over HTTP `GET`, which must not
+/// have side effects: the returned request rejects mutation operations.
 pub fn parse_query_string(input: &str) -> Result<Request, ParseRequestError> {
     #[derive(Deserialize)]
     #[serde(rename_all = "camelCase")]
@@ -50,6 +53,7 @@ pub fn parse_query_string(input: &str) -> Result<Request, ParseRequestError> {
         operation_name: request.operation_name,
         variables,
         extensions,
+        disable_mutation: true,
         ..Request::new(request.query)
     })
 }
